@@ -19,4 +19,10 @@ CHECKS = {
     text="Every crash state of ift.optimize_kl runs with an output directory (strategies 'all' and 'latest'; schedules that switch between MAP and sampled iterations and shrink the sample count) is resumed with resume=True from a pristine process state; the final samples and mean must be bit-identical to the uninterrupted run and the directory left behind must load to the same result. Three genuine defects were repaired (fix: commits); the in-place overwrite window of strategy 'latest' is a recorded known finding.",
     note="Process-kill model; plotting/HDF5 export disabled (C-level writes are outside the seam); report files with timestamps not compared; comm=None.",
     ref="DESIGN.md section 4 (C25)"),
+ "C07": dict(
+    engine="case-runner", level="exploration",
+    technique="exhaustive history enumeration: every constructor x root handle x all chains of <=2 handle derivations x all sequences of <=2 writes on the real objects, private-copy oracle after every step",
+    text="For every public way of building a Field/MultiField and every array handle reachable from it or from its source array, every write primitive (item/slice assignment, in-place arithmetic, ufunc out=, copyto, fill, sort, flat, put, place) either is rejected or leaves the field, and the outputs of operators built from it, bit-identical to a private copy taken at construction.",
+    note="Handles that aliased the source buffer before construction and deliberate setflags(write=True) are outside the alphabet (no flag can protect them); CPU arrays only.",
+    ref="DESIGN.md section 5 (C07)"),
 }
